@@ -1,0 +1,31 @@
+//go:build verif
+
+package workceptor
+
+// Contracts for the deductive checker in /verif (comments only; compiled to nothing).
+
+//@ spec isSecret(k string) bool := strings.HasPrefix(strings.ToLower(k), "secret_")
+
+// ---- C19: secret work parameters
+
+//@ func (*remoteUnit).UnredactedStatus
+//@   tags C19
+//@   trusted
+//@   requires rw != nil
+//@   modifies nothing
+//@   ensures FRESH: result != nil && fresh(result)
+//@   ensures COPY: typeis(result.ExtraData, "*RemoteExtraData") ==> unbox(result.ExtraData, "*RemoteExtraData") != nil && fresh(unbox(result.ExtraData, "*RemoteExtraData")) && fresh(unbox(result.ExtraData, "*RemoteExtraData").RemoteParams) && unbox(result.ExtraData, "*RemoteExtraData").RemoteParams != nil
+
+//@ func (*remoteUnit).Status
+//@   tags C19
+//@   safety
+//@   requires rw != nil
+//@   modifies nothing
+//@   loop range ed.RemoteParams
+//@     invariant ONLYSECRET: forall j int :: 0 <= j && j < len(keysToDelete) ==> isSecret(keysToDelete[j])
+//@     invariant ALLSECRET: forall k string :: visited(k) && isSecret(k) ==> exists j int :: 0 <= j && j < len(keysToDelete) && keysToDelete[j] == k
+//@   loop range keysToDelete
+//@     invariant GONE: forall j int :: 0 <= j && j <= rangeindex ==> !(keysToDelete[j] in ed.RemoteParams)
+//@     invariant KEPT: forall k string :: !isSecret(k) ==> ((k in ed.RemoteParams) == atloop(k in ed.RemoteParams)) && ed.RemoteParams[k] == atloop(ed.RemoteParams[k])
+//@     invariant SHRINK: forall k string :: (k in ed.RemoteParams) ==> atloop(k in ed.RemoteParams)
+//@   ensures REDACTED: typeis(result.ExtraData, "*RemoteExtraData") ==> forall k string :: isSecret(k) ==> !(k in unbox(result.ExtraData, "*RemoteExtraData").RemoteParams)
